@@ -107,10 +107,25 @@ Definition leafp_s (t : htab) (d : dg) : bool :=
 Definition squads (h : hdr) := flat_map (fun t => snd (quads_go (Ch h) t)) (h_strees h).
 Definition iquads (h : hdr) := flat_map (fun t => snd (quads_go (Hh h) t)) (h_itrees h).
 
+(* the leaf-hash table: a digest is the hash of one (index, address, amount) only, and a leaf hash
+   is never the output of a pair hash (leaves are not 64-byte values) *)
+Definition lkey_eqb (x y : N * addr * Z * N) : bool :=
+  N.eqb (fst (fst (fst x))) (fst (fst (fst y))) && N.eqb (snd (fst (fst x))) (snd (fst (fst y)))
+  && Z.eqb (snd (fst x)) (snd (fst y)).
+Fixpoint ltab_ok (t : htab) (l : ltab) : bool :=
+  match l with
+  | [] => true
+  | e :: r =>
+      negb (in_range t (snd e))
+      && forallb (fun e' => negb (N.eqb (snd e') (snd e)) || lkey_eqb e' e) r
+      && ltab_ok t r
+  end.
+
 Definition wf_hdr (h : hdr) : bool :=
   tab_sorted (h_tab h)
   && forallb (fun t => forallb (leafp_s (h_tab h)) (leaves t)) (h_strees h)
-  && forallb (fun t => forallb (leafp_i (h_tab h)) (leaves t)) (h_itrees h).
+  && forallb (fun t => forallb (leafp_i (h_tab h)) (leaves t)) (h_itrees h)
+  && ltab_ok (h_tab h) (h_ltab h).
 
 Definition QS := list (dg * (dg * list dg * Z)).
 Definition is_qroot (qs : QS) (r : dg) : bool := existsb (fun q => dg_eqb r (fst q)) qs.
@@ -214,18 +229,47 @@ Definition unit_expect (ok : bool) (po o_ok : obs) (out : outcome) : option obs 
   if ok then (if out_eqb out (Ok None) then Some o_ok else None)
   else (if out_eqb out Fail then Some po else None).
 
+(* the text leaves the outcome open: success with [o_ok] or failure with nothing changed *)
+Definition unit_either (po o_ok : obs) (out : outcome) : option obs :=
+  if out_eqb out (Ok None) then Some o_ok
+  else if out_eqb out Fail then Some po else None.
+
+(* Verifier::verify must answer [honest_s]; for a value that is an INTERNAL node of the tree
+   (a pair hash) with its truncated proof the text ("a value that is not in the tree") allows a
+   hardened implementation to answer false as well *)
+Definition verify_out_ok (h : hdr) (sq : QS) (p : list dg) (r v : dg) (out : outcome) : bool :=
+  let e := honest_s sq r v p in
+  out_eqb out (Ok (Some e))
+  || (e && negb (leafp_s (h_tab h) v) && out_eqb out (Ok (Some false))).
+
+(* Verifier::verify_with_index: inside the bounds the answer must be [honest_i].  The library
+   traps for len >= 32 (documented bound: MerkleProofOutOfBounds) and for index >= 2^len
+   (MerkleIndexOutOfBounds); the text says "returns false or fails" for a wrong index and "accepts"
+   for an honest proof, so out of the bounds both the trap and the right boolean are accepted.
+   Internal nodes as for [verify]. *)
+Definition idx_out_ok (h : hdr) (iq : QS) (p : list dg) (r v : dg) (i : Z) (out : outcome) : bool :=
+  let len := Z.of_nat (length p) in
+  let e := honest_i iq r v p i in
+  out_eqb out (exp_idx iq p r v i)
+  || (((32 <=? len) || (2 ^ len <=? i)) && out_eqb out (Ok (Some e)))
+  || (e && negb (leafp_i (h_tab h) v) && out_eqb out (Ok (Some false))).
+
 (* [po] = the values every getter must have before the call (initially the first observation,
-   which reads everything; afterwards what this function returned).  Result: the values every
-   getter must have after the call, or None if the outcome violates the property. *)
-Definition mon_expect (h : hdr) (sq iq : QS) (po : obs) (c : call dg) (out : outcome) : option obs :=
+   which reads everything; afterwards what this function returned); [u] = the first observation (it
+   fixes the universe).  Result: the values every getter must have after the call, or None if the
+   outcome violates the property or the call is one the monitor cannot judge ([wf_call]: index or
+   address outside the universe, root without a declared tree). *)
+Definition mon_expect (h : hdr) (sq iq : QS) (u po : obs) (c : call dg) (out : outcome) : option obs :=
+  if negb (wf_call h sq iq u (o_root po) c) then None else
   match c with
   | Verify p r v =>
-      if out_eqb out (Ok (Some (honest_s sq r v p))) then Some po else None
+      if verify_out_ok h sq p r v out then Some po else None
   | VerifyIdx p r v i =>
-      if out_eqb out (exp_idx iq p r v i) then Some po else None
+      if idx_out_ok h iq p r v i out then Some po else None
   | SetRoot r =>
       if out_eqb out (Ok None) then Some (Some r, o_cl po, o_bal po) else None
   | SetClaimed i =>
+      (* the library's explicit marking entry point (no root, no proof needed) *)
       if out_eqb out (Ok None) then Some (o_root po, upd_claimed (o_cl po) i, o_bal po) else None
   | ClaimS i a m p =>
       let ok := match o_root po, alist_get i (o_cl po) with
@@ -239,7 +283,15 @@ Definition mon_expect (h : hdr) (sq iq : QS) (po : obs) (c : call dg) (out : out
                     match exp_idx iq p r (Lh h i a m) (Z.of_N i) with Ok (Some true) => true | _ => false end
                 | _, _ => false
                 end in
-      unit_expect ok po (o_root po, upd_claimed (o_cl po) i, o_bal po) out
+      (* an honest proof of length >= 32: the library refuses it (documented bound), the text would accept *)
+      let ok_text := match o_root po, alist_get i (o_cl po) with
+                     | Some r, Some false => honest_i iq r (Lh h i a m) p (Z.of_N i)
+                     | _, _ => false
+                     end in
+      let o_ok := (o_root po, upd_claimed (o_cl po) i, o_bal po) in
+      if ok then unit_expect true po o_ok out
+      else if ok_text then unit_either po o_ok out
+      else unit_expect false po o_ok out
   | Airdrop i a m p =>
       let ok := match o_root po, alist_get i (o_cl po) with
                 | Some r, Some false =>
@@ -252,52 +304,58 @@ Definition mon_expect (h : hdr) (sq iq : QS) (po : obs) (c : call dg) (out : out
       if out_eqb out (Ok None) then Some po else None
   end.
 
-Fixpoint mon_from (h : hdr) (sq iq : QS) (po : obs) (t : list item) (k : N) : N :=
+Fixpoint mon_from (h : hdr) (sq iq : QS) (u po : obs) (t : list item) (k : N) : N :=
   match t with
   | [] => 0%N
   | (c, out, o) :: r =>
-      match mon_expect h sq iq po c out with
-      | Some e => if obs_sub o e then mon_from h sq iq e r (N.succ k) else N.succ k
+      match mon_expect h sq iq u po c out with
+      | Some e => if obs_sub o e then mon_from h sq iq u e r (N.succ k) else N.succ k
       | None => N.succ k
       end
   end.
 
 (* ---------- verdict ---------- *)
+Fixpoint nodupb (l : list N) : bool :=
+  match l with [] => true | x :: r => negb (mem_n x r) && nodupb r end.
+(* the first observation reads everything, each key once *)
+Definition wf_obs (o : obs) : bool := nodupb (map fst (o_cl o)) && nodupb (map fst (o_bal o)).
+
+(* a malformed header or first observation is both a disagreement and a monitor failure at call 1 *)
 Definition check (t : trace) : verdict :=
   let '(h, o0, items) := t in
   let sq := squads h in
   let iq := iquads h in
-  if wf_hdr h
-  then (diff_from h sq iq o0 (init_of h o0) items 0%N, mon_from h sq iq o0 items 0%N, 0%N)
-  else (1%N, mon_from h sq iq o0 items 0%N, 0%N).
+  if wf_hdr h && wf_obs o0
+  then (diff_from h sq iq o0 (init_of h o0) items 0%N, mon_from h sq iq o0 o0 items 0%N, 0%N)
+  else (1%N, 1%N, 0%N).
 Definition check_all (ts : list trace) : list verdict := map check ts.
 
-(* the trace the model itself produces from the state [init_of h o0] *)
-Fixpoint model_items (h : hdr) (s : state dg) (o : obs) (cs : list (call dg)) : list item :=
+(* the trace the model itself produces from the state [init_of h o0]; each call comes with the
+   list of flags that are read after it (the harness may leave flags unread), balances and the
+   root are always read *)
+Fixpoint model_items (h : hdr) (u : obs) (s : state dg) (cs : list (call dg * list N)) : list item :=
   match cs with
   | [] => []
-  | c :: r =>
+  | (c, reads) :: r =>
       let '(s', out) := mstep h s c in
-      let o' := observe_like o s' in
-      (c, out, o') :: model_items h s' o' r
+      (c, out, observe reads (map fst (o_bal u)) s') :: model_items h u s' r
   end.
-Definition model_trace (h : hdr) (o0 : obs) (cs : list (call dg)) : trace :=
-  (h, o0, model_items h (init_of h o0) o0 cs).
+Definition model_trace (h : hdr) (o0 : obs) (cs : list (call dg * list N)) : trace :=
+  (h, o0, model_items h o0 (init_of h o0) cs).
 
 (* ---------- the boolean well-formedness under which the model's own traces are accepted ---------- *)
-Fixpoint nodupb (l : list N) : bool :=
-  match l with [] => true | x :: r => negb (mem_n x r) && nodupb r end.
-Definition wf_obs (o : obs) : bool := nodupb (map fst (o_cl o)) && nodupb (map fst (o_bal o)).
 
 (* the per-call conditions [diff_from] checks, along the model's own run *)
-Fixpoint wf_run (h : hdr) (sq iq : QS) (u : obs) (s : state dg) (cs : list (call dg)) : bool :=
+Fixpoint wf_run (h : hdr) (sq iq : QS) (u : obs) (s : state dg) (cs : list (call dg * list N)) : bool :=
   match cs with
   | [] => true
-  | c :: r =>
+  | (c, reads) :: r =>
       let '(s', out) := mstep h s c in
-      wf_call h sq iq u (root s) c && call_hits h s c && wf_run h sq iq u s' r
+      wf_call h sq iq u (root s) c && call_hits h s c
+      && forallb (fun i => mem_n i (map fst (o_cl u))) reads
+      && wf_run h sq iq u s' r
   end.
-Definition wf_input (h : hdr) (o0 : obs) (cs : list (call dg)) : bool :=
+Definition wf_input (h : hdr) (o0 : obs) (cs : list (call dg * list N)) : bool :=
   wf_hdr h && wf_obs o0 && wf_run h (squads h) (iquads h) o0 (init_of h o0) cs.
 
 (* ---------- hand-made traces: the monitor accepts a correct history and rejects each kind of violation ---------- *)
@@ -399,7 +457,65 @@ Definition bad_getter_trap := mk_trace h0 (ob None f0 b0)
   [ it (SetRoot (At 2%N)) (Ok None) (ob R [(1099511627776%N,true);(1%N,false);(2%N,false)] b0) ].
 Example check_bad_getter_trap : check bad_getter_trap = (1%N, 1%N, 0%N).
 Proof. vm_compute. reflexivity. Qed.
-Example good_is_wf : wf_input h0 (ob None f0 b0) (map (fun x => fst (fst x)) (snd good)) = true.
+Example good_is_wf : wf_input h0 (ob None f0 b0) (map (fun x => (fst (fst x), map fst (o_cl (snd x)))) (snd good)) = true.
+Proof. vm_compute. reflexivity. Qed.
+
+
+(* ---- traces from the adversarial review ---- *)
+(* reviewer c8: the leaf table maps two different leaves to one digest *)
+Definition hL := mk_hdr [(1%N,3%N,2%N)] [(0%N,5%N,100,1%N); (0%N,6%N,999,1%N); (1%N,6%N,50,3%N)] [T0] [T0] 9%N.
+Definition bad_ltab_collision := mk_trace hL (ob R f0 b0)
+  [ it (Airdrop 0%N 6%N 999 [At 3%N]) (Ok None) (ob R f1 [(9%N,1);(5%N,0);(6%N,999)]) ].
+Example check_bad_ltab_collision : check bad_ltab_collision = (1%N, 1%N, 0%N).
+Proof. vm_compute. reflexivity. Qed.
+Definition hL2 := mk_hdr [(1%N,3%N,2%N)] [(7%N,5%N,100,2%N)] [T0] [T0] 9%N.
+Definition bad_leaf_is_node := mk_trace hL2 (ob R [(7%N,false)] b0) [ it (ClaimS 7%N 5%N 100 []) (Ok None) (ob R [(7%N,true)] b0) ].
+Example check_bad_leaf_is_node : check bad_leaf_is_node = (1%N, 1%N, 0%N).
+Proof. vm_compute. reflexivity. Qed.
+(* reviewer c1: honest proof refused, no tree declared *)
+Definition hN := mk_hdr [(1%N,3%N,2%N)] [] [] [] 9%N.
+Definition bad_undeclared := mk_trace hN (ob None [] []) [ it (Verify [At 3%N] (At 2%N) (At 1%N)) (Ok (Some false)) (ob None [] []) ].
+Example check_bad_undeclared : check bad_undeclared = (1%N, 1%N, 0%N).
+Proof. vm_compute. reflexivity. Qed.
+(* reviewer c7: non-injective table *)
+Definition hC := mk_hdr [(1%N,3%N,2%N);(4%N,5%N,2%N)] [] [T0] [T0] 9%N.
+Definition bad_table := mk_trace hC (ob None [] []) [ it (Verify [At 5%N] (At 2%N) (At 4%N)) (Ok (Some true)) (ob None [] []) ].
+Example check_bad_table : check bad_table = (1%N, 1%N, 0%N).
+Proof. vm_compute. reflexivity. Qed.
+(* duplicate keys in the first observation *)
+Definition bad_obs0 := mk_trace h0 (ob None [(0%N,false);(0%N,true)] b0) [ it (Advance 1) (Ok None) (ob None [(0%N,false)] b0) ].
+Example check_bad_obs0 : check bad_obs0 = (1%N, 1%N, 0%N).
+Proof. vm_compute. reflexivity. Qed.
+(* text-liberal outcomes: accepted by the monitor (the diff still reports that the code changed) *)
+Definition lib_index_false := mk_trace h0 (ob None f0 b0) [ it (VerifyIdx [At 1%N] (At 2%N) (At 3%N) 3) (Ok (Some false)) (ob None f0 b0) ].
+Example check_lib_index_false : check lib_index_false = (1%N, 0%N, 0%N).
+Proof. vm_compute. reflexivity. Qed.
+(* internal node with its truncated proof: true (the library) and false (hardened) both accepted *)
+Definition T1 : tree dg := Nd T0 (Lf (At 5%N)).
+Definition h1 := mk_hdr [(1%N,3%N,2%N);(2%N,5%N,4%N)] [] [T1] [T1] 9%N.
+Definition lib_internal_true := mk_trace h1 (ob None [] []) [ it (Verify [At 5%N] (At 4%N) (At 2%N)) (Ok (Some true)) (ob None [] []) ;
+   it (VerifyIdx [At 5%N] (At 4%N) (At 2%N) 0) (Ok (Some true)) (ob None [] []) ].
+Definition lib_internal_false := mk_trace h1 (ob None [] []) [ it (Verify [At 5%N] (At 4%N) (At 2%N)) (Ok (Some false)) (ob None [] []);
+   it (VerifyIdx [At 5%N] (At 4%N) (At 2%N) 0) (Ok (Some false)) (ob None [] []) ].
+Example check_lib_internal : check lib_internal_true = (0%N, 0%N, 0%N) /\ check lib_internal_false = (1%N, 0%N, 0%N).
+Proof. vm_compute. split; reflexivity. Qed.
+(* but a LEAF with its honest proof must be accepted, and a non-member refused *)
+Definition bad_leaf_refused := mk_trace h1 (ob None [] []) [ it (Verify [At 3%N; At 5%N] (At 4%N) (At 1%N)) (Ok (Some false)) (ob None [] []) ].
+Definition bad_nonmember := mk_trace h1 (ob None [] []) [ it (Verify [At 3%N; At 5%N] (At 4%N) (At 7%N)) (Ok (Some true)) (ob None [] []) ].
+Example check_bad_leaf_refused : check bad_leaf_refused = (1%N, 1%N, 0%N) /\ check bad_nonmember = (1%N, 1%N, 0%N).
+Proof. vm_compute. split; reflexivity. Qed.
+(* the depth-32 bound *)
+Fixpoint chain (k : nat) : tree dg := match k with O => Lf (At 0%N) | S k' => Nd (Lf (At (N.of_nat k))) (chain k') end.
+Definition t33 := chain 32.  Definition path32 := repeat true 32.
+Definition hE := mk_hdr [] [] [t33] [t33] 9%N.
+Definition d32 (out : outcome) := mk_trace hE (ob None [] [])
+  [ it (VerifyIdx (proof_of (Htab []) t33 path32) (troot (Htab []) t33) (At 0%N) (index_of path32)) out (ob None [] []) ].
+(* depth 32: the library's trap is accepted (documented bound), so is the answer true; the answer false is not *)
+Example check_d32 : check (d32 Fail) = (0%N, 0%N, 0%N) /\ check (d32 (Ok (Some true))) = (1%N, 0%N, 0%N) /\ check (d32 (Ok (Some false))) = (1%N, 1%N, 0%N).
+Proof. vm_compute. repeat split; reflexivity. Qed.
+(* claim outside the universe *)
+Definition bad_outside := mk_trace h0 (ob R f0 b0) [ it (ClaimS 9%N 5%N 100 [At 3%N]) Fail (ob R f0 b0) ].
+Example check_bad_outside : check bad_outside = (1%N, 1%N, 0%N).
 Proof. vm_compute. reflexivity. Qed.
 
 End Examples.
